@@ -16,7 +16,9 @@ EXTENDS RemoteTable, Json
 CONSTANTS MaxSteps,     \* commands per history
           MaxStreams,   \* handles
           Depth,        \* max. unanswered commands
-          Level,        \* "core" | "quick" | "full": which parameter shapes are in the alphabet
+          Level,        \* "core" | "quick" | "full": which parameter shapes are in the alphabet;
+                        \* "multi": sessions with several live streams (open, stream, stream, then window changes /
+                        \*          stops / searches / lookups on every handle) - ids are renewed on older streams
           RecordHist    \* TRUE only in the emission configs (the history multiplies the state space)
 
 VARIABLES file, plug, res, hs, pend, nsent, parsing, hist
@@ -26,7 +28,7 @@ vars == <<file, plug, res, hs, pend, nsent, parsing, hist>>
 Pick(core, quick, full) == IF Level = "core" THEN core ELSE IF Level = "quick" THEN core \cup quick ELSE core \cup quick \cup full
 
 AOpen    == Pick({"ok", "ok_onepass", "badjson"}, {"ok_nocollect", "missingfile", "ok_plugins"},
-                 (OpenOkArgs \cup OpenBadArgs))
+                 ((OpenOkArgs \ HugeOpenArgs) \cup OpenBadArgs))
 APlain   == Pick({""}, {}, {"junk"})
 AStream  == Pick({"ok_filt", "ok_onepass", "badjson"}, {"ok", "badwindow"}, (StreamOkArgs \cup StreamBadArgs))
 AQuery   == Pick({"ok_filt"}, {"badjson", "ok_onepass"}, (StreamOkArgs \cup StreamBadArgs))
@@ -51,7 +53,13 @@ HandleTargets == {HName(h) : h \in Handles}
 TargetCmds(v, args, a0) ==
        {Cmd(v, a, t) : a \in args, t \in HandleTargets}
   \cup {Cmd(v, a, t) : a \in (IF Level = "full" THEN args ELSE {a0}), t \in TargetsBase}
-Alphabet ==
+MultiAlphabet ==
+       {Cmd("open", "ok", ""), Cmd("stream", "ok_filt", "")}
+  \cup {Cmd("stop", "", t) : t \in HandleTargets} \cup {Cmd("stream_change_window", "ok", t) : t \in HandleTargets}
+  \cup {Cmd("stream_search", "ok", t) : t \in HandleTargets} \cup {Cmd("stream_binary_search", "time", t) : t \in HandleTargets}
+\* shape of a "multi" history: open, two streams, then no further open
+MultiShape(c) == /\ (nsent = 0 => c.verb = "open") /\ (nsent \in {1, 2} => c.verb = "stream") /\ (nsent > 2 => c.verb # "open")
+FullAlphabet ==
        {Cmd("open", a, "") : a \in AOpen}
   \cup {Cmd(v, a, "") : v \in {"close", "pause", "resume"}, a \in APlain}
   \cup {Cmd("stream", a, "") : a \in AStream} \cup {Cmd("query", a, "") : a \in AQuery}
@@ -62,6 +70,7 @@ Alphabet ==
   \cup {Cmd("plugin_cmd", a, "") : a \in APlugin}
   \cup {Cmd("fs", a, "") : a \in AFs}
   \cup {Cmd("unknown", a, "") : a \in AUnknown}
+Alphabet == IF Level = "multi" THEN {c \in MultiAlphabet : MultiShape(c)} ELSE FullAlphabet
 
 Init == /\ file = "none" /\ plug = FALSE /\ res = FALSE /\ hs = <<>> /\ pend = <<>> /\ nsent = 0 /\ parsing = "none" /\ hist = <<>>
 
